@@ -71,8 +71,8 @@ func run(c *core.Ctx) error {
 		dspans: ds, tspans: ts, dtspans: dts,
 		maxDepth: 0, fmtLevel: c.Pick(1, 2), deviations: devs,
 	}
-	if th && len(rt.dates) > 1400 {
-		rt.dates = rt.dates[:1400]
+	if th && len(rt.dates) > 1000 {
+		rt.dates = rt.dates[:1000]
 	}
 	if err := runInstance(c, "round trips", rt, ta, &elkSample); err != nil {
 		return err
@@ -111,18 +111,49 @@ func run(c *core.Ctx) error {
 	return nil
 }
 
-// runInstance model-checks one bounded instance, collects its GEN records and replays them.
+// runInstance model-checks one bounded instance and replays its GEN records on the real code while
+// TLC is still running (records are flushed to the workers in blocks, so memory stays bounded).
 func runInstance(c *core.Ctx, name string, in *instance, ta *tally, elkSample *[]*Gen) error {
-	var recs [][]byte
 	t0 := time.Now()
 	if dir := os.Getenv("C22_DUMP_DIR"); dir != "" { // developer aid: keep the generated instance
 		os.WriteFile(filepath.Join(dir, "MC_Calendar_"+strings.ReplaceAll(name, " ", "_")+".tla"), in.module(), 0o644)
 	}
+	pool := c.NewPool(c.Workers, "TZ=UTC") // Date uses the local zone: pin it
+	var gens []*Gen
+	var flushErr error
+	total, replayS := 0, 0.0
+	flush := func() {
+		if len(gens) == 0 || flushErr != nil {
+			gens = nil
+			return
+		}
+		t1 := time.Now()
+		flushErr = replay(c, pool, gens, ta)
+		replayS += time.Since(t1).Seconds()
+		// seeded sample for the end-to-end replay as Elk programs
+		for _, idx := range c.SampleIdx(len(gens), 1+len(gens)/c.Pick(250, 900)) {
+			*elkSample = append(*elkSample, gens[idx])
+		}
+		total += len(gens)
+		gens = nil
+	}
 	res, err := tlc.Run(tlc.Opts{
 		SpecDir: filepath.Join(core.VerifRoot, "spec", "Calendar"), Module: "MC_Calendar", Cfg: "Calendar.cfg",
-		Scratch: c.Scratch, Workers: c.Workers, Timeout: time.Duration(c.Pick(150, 900)) * time.Second, HeapMB: 6000,
+		Scratch: c.Scratch, Workers: c.Workers, Timeout: time.Duration(c.Pick(170, 1100)) * time.Second, HeapMB: 6000,
 		Extra: map[string][]byte{"MC_Calendar.tla": in.module()},
-		OnGen: func(rec []byte) { recs = append(recs, append([]byte(nil), rec...)) },
+		OnGen: func(rec []byte) {
+			g := &Gen{}
+			if err := json.Unmarshal(rec, g); err != nil {
+				if flushErr == nil {
+					flushErr = core.Inconclusivef("bad GEN record: %v: %s", err, rec)
+				}
+				return
+			}
+			gens = append(gens, g)
+			if len(gens) >= 60000 {
+				flush()
+			}
+		},
 	})
 	if err != nil {
 		return err
@@ -134,25 +165,24 @@ func runInstance(c *core.Ctx, name string, in *instance, ta *tally, elkSample *[
 		}
 		return core.Inconclusivef("TLC on spec/Calendar (%s): verdict=%s %s\n%s", name, res.Verdict, res.What, tailStr(res.Output, 3000))
 	}
-	c.Logf("%s: TLC %d states generated, %d distinct, depth %d, %d GEN records, %.1fs", name, res.Generated, res.Distinct, res.Depth, len(recs), time.Since(t0).Seconds())
+	flush()
+	if flushErr != nil {
+		return flushErr
+	}
+	c.Logf("%s: TLC %d states generated, %d distinct, depth %d; %d GEN records replayed on the natives (%.1fs of %.1fs)",
+		name, res.Generated, res.Distinct, res.Depth, total, replayS, time.Since(t0).Seconds())
 	c.CovAdd("states", int(res.Distinct))
 	c.CovAdd("transitions", int(res.Generated))
-	if len(recs) == 0 {
+	if total == 0 {
 		return core.Inconclusivef("%s: the specification generated no behaviour", name)
 	}
+	return nil
+}
 
-	// replay on the real code, in chunks, inside crash-isolated workers (TZ pinned: Date uses the local zone)
+// replay runs the records on the natives, in chunks, inside crash-isolated workers, and judges them.
+func replay(c *core.Ctx, pool *core.Pool, gens []*Gen, ta *tally) error {
 	const chunk = 4000
 	var jobs []core.Job
-	var gens []*Gen
-	for _, r := range recs {
-		g := &Gen{}
-		if err := json.Unmarshal(r, g); err != nil {
-			return core.Inconclusivef("bad GEN record: %v: %s", err, r)
-		}
-		gens = append(gens, g)
-	}
-	recs = nil
 	for i := 0; i < len(gens); i += chunk {
 		j := min(i+chunk, len(gens))
 		cases := make([]Case, 0, j-i)
@@ -161,8 +191,6 @@ func runInstance(c *core.Ctx, name string, in *instance, ta *tally, elkSample *[
 		}
 		jobs = append(jobs, core.Job{Kind: "c22replay", Payload: cases, TimeoutMs: 120000})
 	}
-	t1 := time.Now()
-	pool := c.NewPool(c.Workers, "TZ=UTC")
 	results := pool.Map(jobs, nil)
 	for bi, jr := range results {
 		lo := bi * chunk
@@ -204,13 +232,6 @@ func runInstance(c *core.Ctx, name string, in *instance, ta *tally, elkSample *[
 		for k, g := range gens[lo:hi] {
 			judge(c, ta, g, &outs[k], "native")
 		}
-	}
-	c.Logf("%s: %d records replayed on the natives in %.1fs", name, len(gens), time.Since(t1).Seconds())
-
-	// seeded sample for the end-to-end replay as Elk programs
-	want := c.Pick(240, 1500)
-	for _, idx := range c.SampleIdx(len(gens), want) {
-		*elkSample = append(*elkSample, gens[idx])
 	}
 	return nil
 }
